@@ -9,8 +9,8 @@ Correspondence (harness/src/bin/txt.rs against the model extracted from coq/Text
     alphabet, groups with troublesome paths, sizes around the unit thresholds): byte for byte;
   * open_report + TextReportReader::read_header + TextReportIterator on the written text (oracle: equals the
     report), on EVERY truncation point of small reports (oracle: a cut strictly inside a group gives Err and
-    delivers exactly the complete groups before it; cuts inside the last path line of a group that are
-    accepted are the known finding K4), and on randomly mutated reports (model == implementation only);
+    delivers exactly the complete groups before it — including cuts inside the last path line, the former
+    known finding K4, repaired in /repo 2eccdb7), and on randomly mutated reports (model == implementation only);
   * JSON: the strings serde_json carries are compared with the model's STFU-8 encoding, and the JSON reader's
     result with the report (oracle).
 The parameters of the model (ByteSize texts, chrono formatting) are taken from the implementation and their
@@ -332,19 +332,19 @@ def run(ctx):
                     payload = {"report": _jsonable(r), "cut": k, "groups_before": before, "lines": ["r " + field(text[:k])],
                                "read_as": res, "text_prefix_tail": text[max(0, k - 60):k].decode("utf-8", "replace"),
                                "replay_cmd": "echo 'r %s' | %s" % (field(text[:k]), TXT)}
+                    # K4 (cut inside the last path line accepted) was repaired in /repo 2eccdb7: its class is an ordinary
+                    # violation kind now, reported with the concrete cut
+                    kind = "truncated_last_path_line" if cls == "last_path_line" else "truncated_group_accepted"
                     if cls == "last_path_line":
                         k4 += 1
-                        ctx.violation({"kind": "truncated_last_path_line"},
-                                      "text report cut inside the last path line of a group is accepted: read as %s" % res[-200:], payload, found_input=True)
-                    else:
-                        oracle.append(("truncated_group_accepted", "cut at byte %d (%s) is read as %s instead of an error after %d groups"
-                                       % (k, cls, res[-300:], before), payload))
+                    oracle.append((kind, "cut at byte %d (%s) is read as %s instead of an error after %d groups"
+                                   % (k, cls, res[-300:], before), payload))
             elif cls == "boundary":
                 nb = sum(1 for (_, _, end) in gl if end <= k)
                 if res != canonical(r, nb, "ok"):
                     oracle.append(("boundary_cut", "report cut at a group boundary (byte %d) is read as %s" % (k, res[-300:]),
                                    {"report": _jsonable(r), "cut": k, "lines": ["r " + field(text[:k])]}))
-        ctx.extra["k4_class_cuts_accepted"] = k4
+        ctx.extra["last_path_line_cuts_accepted"] = k4
 
         # ---- 4. JSON
         jr = reports[:ctx.pick(150, 2000)]
